@@ -25,8 +25,16 @@ func (s *Sess) Initiate(b, k string, m []KV) string {
 	return id
 }
 
+var partUploads int
+
 func (s *Sess) UploadPart(b, k, uid string, pn int, body []byte) string {
-	r := do(s.h, Req{Method: "PUT", Path: "/" + pathEscape(b) + "/" + pathEscape(k) + "?uploadId=" + queryEscape(uid) + "&partNumber=" + strconv.Itoa(pn), Body: body})
+	partUploads++
+	var hdr [][2]string
+	if partUploads%5 == 0 {
+		// (what curl --data-binary sends along; the body of a part is a body whatever its Content-Type says)
+		hdr = [][2]string{{"Content-Type", "application/x-www-form-urlencoded"}}
+	}
+	r := do(s.h, Req{Method: "PUT", Path: "/" + pathEscape(b) + "/" + pathEscape(k) + "?uploadId=" + queryEscape(uid) + "&partNumber=" + strconv.Itoa(pn), Body: body, Header: hdr})
 	s.emitOp("part", []string{hs(b), hs(k), hs(uid), strconv.Itoa(pn), hx(body)}, obsT{r: r})
 	return r.Header.Get("ETag")
 }
